@@ -239,6 +239,10 @@ class RecipeReplay:
                 return      # a step sits exactly on a feasibility boundary: the verdict is not asserted (DESIGN 4.3)
             if out != "ok":
                 self.report("C16", "valid_call_refused", dict(key, exc=out), f"{call_txt} after {len(ev['history'])} calls raised {out}: {exc}", ev)
+                if c["call"] in ("dilute", "fill_to") and out != "RuntimeError":
+                    # a reachable target refused when the step is declared (the recipe checks the request itself): C11's refusal clause
+                    self.ran("C11")
+                    self.report("C11", "feasible_refused", dict(key, exc=out, site="recipe"), f"recipe.{c['call']}: {call_txt} raised {out}: {exc}", ev)
                 return
         elif want == "RuntimeError":
             if out != "RuntimeError":
